@@ -23,7 +23,7 @@ HERE = os.path.dirname(os.path.abspath(__file__))
 sys.path.insert(0, HERE)
 import common as C  # noqa: E402
 
-GEN = ["GenLru", "GenCacheOpt", "GenAccept", "GenStages", "GenPath", "GenCodec", "GenMemStore"]
+GEN = ["GenLru", "GenCacheOpt", "GenAccept", "GenStages", "GenPath", "GenCodec", "GenMemStore", "GenArgCtx"]
 PROOFS = {
     "GenLru": "L5_Stores/GenLruProofs.v",
     "GenCacheOpt": "L5_Stores/GenCacheOptProofs.v",
@@ -32,12 +32,14 @@ PROOFS = {
     "GenPath": "L5_Stores/GenPathProofs.v",
     "GenCodec": "L5_Stores/GenCodecProofs.v",
     "GenMemStore": "L5_Stores/GenMemStoreProofs.v",
+    "GenArgCtx": "L1_Args/GenArgCtxProofs.v",
 }
-PROPERTIES = ["Properties/C12g.v", "Properties/C14g.v", "Properties/C15g.v", "Properties/C08g.v", "Properties/C17g.v", "Properties/C08m.v"]
+PROPERTIES = ["Properties/C12g.v", "Properties/C14g.v", "Properties/C15g.v", "Properties/C08g.v", "Properties/C17g.v", "Properties/C08m.v", "Properties/C13g.v"]
 OURS = {os.path.splitext(os.path.basename(p))[0] for p in list(PROOFS.values()) + PROPERTIES} | set(GEN)
 SRC_REPO = os.environ.get("DDS_REPO", "/repo")
 
 LRU, API, CTX, STORE, CODEC = "dds/_lru_store.py", "dds/_api.py", "dds/_eval_ctx.py", "dds/store.py", "dds/codec.py"
+FUNARGS = "dds/fun_args.py"
 
 
 def sub1(old, new, regex=False):
@@ -115,6 +117,21 @@ SCENARIOS = [
     ("harmless (MemoryStore): log lines changed and added",
      [(STORE, lambda t: sub1("                _logger.debug(f\"Overwriting path: {p} -> {k}\")", "                _logger.info(f\"moving {p}\")")(
          sub1("        missing_paths = [p for p in paths if p not in self._paths]", "        _logger.debug(f\"fetch_paths {paths}\")\n        missing_paths = [p for p in paths if p not in self._paths]")(t)))], "pass"),
+    ("get_arg_ctx: a keyword argument is looked up before the positional ones",
+     [(FUNARGS, sub1("        if idx < num_args:\n            # It is a list argument\n            # TODO: should it discard arguments of not-whitelisted types?",
+                     "        if idx < num_args and n not in kwargs:\n            # It is a list argument\n            # TODO: should it discard arguments of not-whitelisted types?"))], "caught"),
+    ("get_arg_ctx: off by one in the positional test",
+     [(FUNARGS, sub1("        if idx < num_args:\n            # It is a list argument\n            # TODO: should it discard", "        if idx <= num_args:\n            # It is a list argument\n            # TODO: should it discard"))], "caught"),
+    ("get_arg_ctx_ast: the default wins over a keyword argument seen in the source",
+     [(FUNARGS, sub1("            if n in kwargs:\n                h = process_arg(kwargs[n])\n            elif p.default != Parameter.empty:",
+                     "            if p.default != Parameter.empty:\n                h = _hash_arg(p.default)\n            elif n in kwargs:\n                h = process_arg(kwargs[n])\n            elif p.default != Parameter.empty:"))], "caught"),
+    ("get_arg_ctx_ast: a missing argument without default gets the hash of None",
+     [(FUNARGS, sub1("                # Do not consider this argument for the time being\n                h = None", "                # Do not consider this argument for the time being\n                h = _hash_arg(None)"))], "caught"),
+    ("process_arg: every node is hashed by its value attribute",
+     [(FUNARGS, sub1("        if isinstance(node, (ast.Constant, ast.NameConstant)):", "        if hasattr(node, \"value\"):"))], "caught"),
+    ("harmless (fun_args): comments and messages changed",
+     [(FUNARGS, lambda t: sub1("            # It is a list argument\n            h = process_arg(args[idx])", "            # positional\n            h = process_arg(args[idx])")(
+         sub1("                    f\"Missing argument {n} for function {f}. \"", "                    f\"Argument {n} of {f} is missing. \"")(t)))], "pass"),
     # ---- harmless edits
     ("harmless: locals renamed",
      [(LRU, lambda t: re.sub(r"\bres\b", "fetched", re.sub(r"\bcache_obj\b", "hit", t))),
@@ -241,7 +258,7 @@ def verdict(res):
 
 
 def main():
-    need = [os.path.join(C.THEORIES, "Base", "PyRt.vo"), os.path.join(C.THEORIES, "L5_Stores", "CodecProofs.vo"), os.path.join(C.THEORIES, "L4_Eval", "Store.vo"), os.path.join(C.THEORIES, "L5_Stores", "LruProofs.vo"),
+    need = [os.path.join(C.THEORIES, "Base", "PyRt.vo"), os.path.join(C.THEORIES, "L5_Stores", "CodecProofs.vo"), os.path.join(C.THEORIES, "L4_Eval", "Store.vo"), os.path.join(C.THEORIES, "L1_Args", "ArgCtx.vo"), os.path.join(C.THEORIES, "L5_Stores", "LruProofs.vo"),
             os.path.join(C.THEORIES, "L5_Stores", "PathMapProofs.vo"), os.path.join(C.THEORIES, "L4_Eval", "Stages.vo"),
             os.path.join(C.THEORIES, "L2_Disc", "Accept.vo")]
     missing = [p for p in need if not os.path.exists(p)]
